@@ -320,6 +320,26 @@ def job(arg):
         for tag in tags[:2]:
             keep_one("/c17/%s" % tag, produce2, tag)
         check_reads("after-more-writes", lambda p, k: dds.load(p))
+        if kind in ("local", "local_lru"):
+            # the state a killed writer leaves (blob in place, metadata never written), then the same call again while the
+            # codec selection may have changed through the registrations above: whatever codec writes now, the blob and
+            # its metadata must agree afterwards
+            redo = [p_ for p_ in sorted(written) if written[p_][0] not in tags[:2]][:6]
+            for path in redo:
+                tag, exp, ref, key = written[path]
+                mp = os.path.join(root, "internal", "blobs", key + ".meta")
+                if os.path.exists(mp):
+                    os.remove(mp)
+                    rep.count("metadata_removed_then_rewritten")
+            st_new = _set_store(kind, root)  # a new store object: nothing cached in memory
+            rn = _registry_of(st_new)
+            rn.add_file_codec(UserAFileCodec())
+            rn.add_codec(UserBCodec())
+            _apply_scenario(rn, sc)
+            _wrap_registry(rn)
+            for path in redo:
+                keep_one(path, produce, written[path][0])
+            check_reads("after-rewrite-of-blobs-without-metadata", lambda p, k: dds.load(p))
         if kind != "memory":
             # store-level fetch by key through a brand-new store object
             st2 = _set_store(kind, root)
@@ -374,7 +394,7 @@ def run(tier, seed):
     rep.rule = (
         "values %r (str: empty/ASCII/non-ASCII/CRLF/1MB, bytes: empty/all 256 values/1MB, None, ints, nested containers, picklable object, pandas frames, "
         "types with a user FileCodecProtocol and a user CodecProtocol) x registration scenarios %r applied between writes and reads x stores {local, local+cache, dbfs(fake), memory}; "
-        "reads through dds.load in the same process, Store.fetch_blob on a new store object, and dds.load in another process with the extra codecs registered before/after the user codecs. "
+        "reads through dds.load in the same process, Store.fetch_blob on a new store object, and dds.load in another process with the extra codecs registered before/after the user codecs; on local stores the metadata file of some blobs is removed (killed writer) and the call repeated under the changed codec selection. "
         "distinct_nontrivial = distinct (store, scenario, value order) runs that wrote >=2 values." % (TAGS, SCENARIOS)
     )
     jobs = []
